@@ -629,13 +629,32 @@ func ruleGRDbudget(w *World, r *Report) {
 		}
 		return false
 	}
-	isGuard := func(in ssa.Instruction) bool {
-		bo, ok := in.(*ssa.BinOp)
-		if !ok || (bo.Op != token.GTR && bo.Op != token.GEQ) {
-			return false
+	// the budget test in any orientation: (total+t) >/>= B, B </<= (total+t) leave on the false edge;
+	// (total+t) </<= B, B >/>= (total+t) on the true edge
+	guardParts := func(in ssa.Instruction) (sum *ssa.BinOp, fitsOnTrue bool, ok bool) {
+		bo, isBo := in.(*ssa.BinOp)
+		if !isBo {
+			return nil, false, false
 		}
-		_, isSum := bo.X.(*ssa.BinOp)
-		return isSum && bo.X.(*ssa.BinOp).Op == token.ADD && derivesFromMaxTokens(bo.Y)
+		var gt bool
+		switch bo.Op {
+		case token.GTR, token.GEQ:
+			gt = true
+		case token.LSS, token.LEQ:
+		default:
+			return nil, false, false
+		}
+		if x, isSum := bo.X.(*ssa.BinOp); isSum && x.Op == token.ADD && derivesFromMaxTokens(bo.Y) {
+			return x, !gt, true
+		}
+		if y, isSum := bo.Y.(*ssa.BinOp); isSum && y.Op == token.ADD && derivesFromMaxTokens(bo.X) {
+			return y, gt, true
+		}
+		return nil, false, false
+	}
+	isGuard := func(in ssa.Instruction) bool { _, _, ok := guardParts(in); return ok }
+	isGuardPol := func(fits bool) func(ssa.Instruction) bool {
+		return func(in ssa.Instruction) bool { _, f, ok := guardParts(in); return ok && f == fits }
 	}
 	guards := findInstrs(fn, isGuard)
 	if len(guards) == 0 {
@@ -658,25 +677,37 @@ func ruleGRDbudget(w *World, r *Report) {
 			}
 			n++
 			cc := ssa.Instruction(c)
-			ok2, wit := mustPassGuard(fn, func(x ssa.Instruction) bool { return x == cc }, isGuard, func(x ssa.Instruction) ssa.Value { return x.(*ssa.BinOp) }, false, nil)
+			isC := func(x ssa.Instruction) bool { return x == cc }
+			gv := func(x ssa.Instruction) ssa.Value { return x.(*ssa.BinOp) }
+			ok2, wit := mustPassGuard(fn, isC, isGuardPol(false), gv, false, nil)
+			if !ok2 {
+				if ok3, _ := mustPassGuard(fn, isC, isGuardPol(true), gv, true, nil); ok3 {
+					ok2 = true
+				}
+			}
 			r.Cond(ok2, "GRD-budget", fmt.Sprintf("assembleContext:select#%d:within-budget", n), w.Pos(c.Pos()), "a chunk is selected only on the total+chunkTokens ≤ MaxTokens edge", "assembleContext can add a chunk to the context on a path where total+chunkTokens > MaxTokens (or before the test): a single oversized chunk — or the first one — makes the returned context exceed the token budget", w.witness(wit)...)
 			// the same chunkTokens is added to the total in the selecting block
-			sum := guards[0].(*ssa.BinOp).X.(*ssa.BinOp)
+			sum, _, _ := guardParts(guards[0])
 			counted := false
-			for _, in2 := range c.Block().Instrs {
-				if bo, ok := in2.(*ssa.BinOp); ok && bo.Op == token.ADD && (bo.X == sum.X && bo.Y == sum.Y || bo.X == sum.Y && bo.Y == sum.X) {
-					// and it feeds the running total
-					for _, ref := range *bo.Referrers() {
-						if p, ok := ref.(*ssa.Phi); ok && (p == sum.X || p == sum.Y || phiReaches(p, sum.X) || phiReaches(p, sum.Y)) {
-							counted = true
+			// the sum the test uses (or an equal sum computed again) becomes the running total on the selecting path:
+			// it feeds the total's phi through an edge whose predecessor the selecting block dominates
+			feedsTotal := func(v *ssa.BinOp) bool {
+				for _, ref := range *v.Referrers() {
+					p, ok := ref.(*ssa.Phi)
+					if !ok || !(p == sum.X || p == sum.Y || phiReaches(p, sum.X) || phiReaches(p, sum.Y) || phiReaches(sum.X, p) || phiReaches(sum.Y, p)) {
+						continue
+					}
+					for i, e := range p.Edges {
+						if e == v && (p.Block().Preds[i] == c.Block() || c.Block().Dominates(p.Block().Preds[i])) {
+							return true
 						}
 					}
 				}
+				return false
 			}
-			if sum.Block() == c.Block() {
-				// the guard's own sum may be reused as the new total
-				for _, ref := range *sum.Referrers() {
-					if p, ok := ref.(*ssa.Phi); ok && (phiReaches(p, sum.X) || phiReaches(p, sum.Y)) {
+			for _, b2 := range fn.Blocks {
+				for _, in2 := range b2.Instrs {
+					if bo, ok := in2.(*ssa.BinOp); ok && bo.Op == token.ADD && (bo.X == sum.X && bo.Y == sum.Y || bo.X == sum.Y && bo.Y == sum.X) && feedsTotal(bo) {
 						counted = true
 					}
 				}
@@ -700,7 +731,7 @@ func ruleGRDbudget(w *World, r *Report) {
 				continue
 			}
 			if _, f := structFieldName(fa.X.Type(), fa.Field); f == "TotalTokens" {
-				sum := guards[0].(*ssa.BinOp).X.(*ssa.BinOp)
+				sum, _, _ := guardParts(guards[0])
 				if st.Val == sum.X || st.Val == sum.Y || phiReaches(st.Val, sum.X) || phiReaches(st.Val, sum.Y) || phiReaches(sum.X, st.Val) || phiReaches(sum.Y, st.Val) {
 					okTot = true
 				}
